@@ -47,11 +47,15 @@ class Gen(object):
             return ('enum', self.rng.randrange(len(self.enums)))
         if r < 0.75:
             n = self.rng.choice([0, 1, 2, 3, 5, 7, 16, 100, 70000 if self.rng.random() < 0.2 else 4])
+            # 70000-element arrays (offsets beyond 16 bits) mostly have scalar elements; nested ones reach sizes of 2**31
+            # bytes and more, where giroffsets.c (gint arithmetic) and the model (unbounded Z) part: known finding C08-K1
+            if n >= 1000 and self.rng.random() < 0.9:
+                return ('array', n, ('basic', self.rng.choice(['gint16', 'gint8', 'gdouble'])))
             return ('array', n, self.gen_type(depth, False) if depth > 0 else ('basic', 'gint16'))
         if r < 0.88 and self.decls and depth > 0:
             i = self.rng.randrange(len(self.decls))
             return (self.decls[i][0], i)
-        if r < 0.93:
+        if r < 0.93 and allow_unknown:      # not as an array element
             return ('callback',)
         if allow_unknown and self.allow_unknown and r < 0.97:
             return self.rng.choice([('void',), ('varray', ('basic', 'gint32'))])
@@ -230,7 +234,9 @@ def main(tier, seed):
     ck.assumptions += ['this platform (x86-64 LP64, gcc) is the C ABI the property refers to; gcc on the same '
                        'declarations is the oracle for the implementation',
                        'declarations are acyclic; bit-fields and packed/aligned attributes are outside GIR',
-                       'libffi type sizes as reported by a probe linked against the current sources']
+                       'libffi type sizes as reported by a probe linked against the current sources',
+                       'the model computes in unbounded Z, giroffsets.c in gint: declarations of 2**31 bytes and more are judged '
+                       'directly against gcc and not compared with the model (known finding C08-K1)']
     ck.prove(['gen_c08.py'], models=['Model/C08Spec.vo'])
     ok, out = c_build()
     if not ok:
@@ -250,6 +256,7 @@ def main(tier, seed):
             g.enums[0] = [-1, 3000000000]
             g.decls[0] = ('struct', [('basic', 'gint8'), ('enum', 0), ('basic', 'gint8')])
             g.decls[1] = ('struct', [('basic', 'gint8'), ('array', 70000, ('basic', 'gint8')), ('basic', 'gint32')])
+            g.decls[2] = ('struct', [('array', 70000, ('array', 70000, ('basic', 'gint16'))), ('ptr', 'utf8')])     # 9.8 GB
         tmp = tempfile.mkdtemp(prefix='giv08')
         try:
             res, msg = run_batch(g, exe, tmp)
@@ -292,6 +299,18 @@ def main(tier, seed):
                 lcases.append(dict(kind=kind, fields=fields, coq=g.coq_members(fields), impl=impl['D'][i],
                                    gcc=gcc['D'].get(i)))
     ck.extra['unknown_size_batches'] = n_unknown
+    # sizes of 2**31 bytes and more are judged here and kept away from the model (which computes in unbounded Z)
+    small = []
+    for c in lcases:
+        if c['gcc'] and c['gcc'][1] >= 2 ** 31:
+            ck.count_case(dict(kind=c['kind'], fields=c['fields'], impl=c['impl'], gcc=c['gcc']), kind='%s:huge' % c['kind'])
+            if c['impl'][1] != 4294967295 and (c['impl'][1] != c['gcc'][1] or c['impl'][2] != c['gcc'][2]):
+                ck.failing_input('the stored size of a structure of 2**31 bytes or more is neither the C compiler\'s nor "unknown"',
+                                 dict(kind=c['kind'], fields=c['fields']), detail=dict(stored=c['impl'], gcc=c['gcc']),
+                                 fid='C08-K1-size-beyond-31-bits')
+        else:
+            small.append(c)
+    lcases = small
     for c in lcases:
         ck.count_case(dict(kind=c['kind'], fields=c['fields'], impl=c['impl'], gcc=c['gcc']),
                       nontrivial=len(c['fields']) >= 2, kind='%s:%s' % (c['kind'], 'known' if c['gcc'] else 'unknown'))
